@@ -117,7 +117,7 @@ func simulateAndReplay(c *run.Ctx, m mcRun, num, depth int, timeout time.Duratio
 
 func init() {
 	register("C01", "model_checking", func(c *run.Ctx) error {
-		c.Rule = "TLC explores the Autograd machine exhaustively (every DAG over the alphabet up to MaxNodes tensors, every tracked assignment, root, valid edge order, leaf-sharing repeated back-propagations, resets) and checks C01_Total / C01_Once in every state; every transition into an idle state is dumped with a witness path and replayed on the real library with the complete projected state compared; distinct = distinct witness paths; non-trivial = at least two tensors"
+		c.Rule = "TLC explores the Autograd machine exhaustively (every DAG over the alphabet up to MaxNodes tensors, every tracked assignment, root, valid edge order, leaf-sharing repeated back-propagations, resets) and checks C01_Total / C01_Once in every state; every transition into an idle state is dumped with a witness path and replayed on the real library with the complete projected state compared; 1600 (40000) pseudo-random 10-12 node DAG skeletons with fan-out, reconvergence and doubled operands plus hand-written structures are replayed with symbolic values against the definitional gradient of every tensor on the way; TLC -simulate behaviours of a 9-tensor machine; recorded histories validated by TLC; distinct = distinct witness paths / skeletons; non-trivial = at least two tensors"
 		c.Assumptions = []string{"spec/Autograd.tla is the reading of the statement; LocalVJP and TotalDeriv come from symbolic differentiation of the operation definitions", "exhaustive only within the stated bounds (rank-0 tensors here; tensor-valued graphs in the tensor configuration and the trace-validation tier)"}
 		mc := mcRun{"MC_AutogradScalar", 3, 2, true, false}
 		dump := mcRun{"MC_AutogradScalar", 3, 1, true, false}
@@ -139,6 +139,23 @@ func init() {
 			return err
 		}
 		if err := dumpAndReplay(c, tmc, 30*time.Minute); err != nil {
+			return err
+		}
+		// larger graphs, symbolic values: pseudo-random and hand-written DAG skeletons, gradients by the definition
+		c.Logf("TLC generating DAG skeletons (Gen_C01) and their gradients by definition")
+		parts := 8
+		if c.Thorough {
+			parts = 16
+		}
+		files, err := c.Generate("Gen_C01", parts, 60*time.Minute)
+		if err != nil {
+			return err
+		}
+		na := 3
+		if c.Thorough {
+			na = 6
+		}
+		if err := c.ReplaySym(files, na); err != nil {
 			return err
 		}
 		// deeper graphs than the exhaustive bound: random behaviours of the same machine
